@@ -158,6 +158,65 @@ def _inputs_of(expr, fn_params, local_defs, seen=None):
     return out
 
 
+def _definitely_not_none(e):
+    """syntactic judgement: the expression can never evaluate to None"""
+    if isinstance(e, ast.Constant):
+        return e.value is not None
+    if isinstance(e, (ast.Tuple, ast.List, ast.Dict, ast.Set, ast.JoinedStr)):
+        return True
+    if isinstance(e, ast.Call) and isinstance(e.func, ast.Name) and e.func.id in ("tuple", "list", "dict", "set", "str", "int", "float", "bool"):
+        return True
+    if isinstance(e, ast.IfExp):
+        t = e.test
+        if (isinstance(t, ast.Compare) and len(t.ops) == 1 and isinstance(t.ops[0], ast.IsNot)
+                and isinstance(t.comparators[0], ast.Constant) and t.comparators[0].value is None
+                and ast.dump(t.left) == ast.dump(e.body)):
+            return _definitely_not_none(e.orelse)
+        return _definitely_not_none(e.body) and _definitely_not_none(e.orelse)
+    return False
+
+
+def _operand_guard(f, read_node):
+    """If every path to `read_node` first passes `if self.operand("X") is not None: return …`, return "X"."""
+    for st in f.node.body:
+        if getattr(st, "lineno", 10**9) >= read_node.lineno:
+            break
+        if isinstance(st, ast.If) and st.body and isinstance(st.body[-1], ast.Return) and not st.orelse:
+            t = st.test
+            if (isinstance(t, ast.Compare) and len(t.ops) == 1 and isinstance(t.ops[0], ast.IsNot)
+                    and isinstance(t.comparators[0], ast.Constant) and t.comparators[0].value is None
+                    and isinstance(t.left, ast.Call) and isinstance(t.left.func, ast.Attribute) and t.left.func.attr == "operand"
+                    and t.left.args and isinstance(t.left.args[0], ast.Constant)):
+                return t.left.args[0].value
+    return None
+
+
+def _always_constructed_with(trees, cls_name, param):
+    """Every call `cls_name(...)` in the package passes a definitely-not-None value for `param`
+    (positionally or by keyword), and there is at least one such call."""
+    params = None
+    for tree in trees.values():
+        for n in ast.walk(tree):
+            if isinstance(n, ast.ClassDef) and n.name == cls_name:
+                for st in n.body:
+                    if isinstance(st, ast.Assign) and any(isinstance(t, ast.Name) and t.id == "_parameters" for t in st.targets) and isinstance(st.value, ast.List):
+                        params = [e.value for e in st.value.elts if isinstance(e, ast.Constant)]
+    if not params or param not in params:
+        return False
+    pos = params.index(param)
+    calls = 0
+    for tree in trees.values():
+        for n in ast.walk(tree):
+            if isinstance(n, ast.Call) and isinstance(n.func, ast.Name) and n.func.id == cls_name:
+                calls += 1
+                if any(isinstance(a, ast.Starred) for a in n.args):
+                    return False
+                val = n.args[pos] if len(n.args) > pos else next((k.value for k in n.keywords if k.arg == param), None)
+                if val is None or not _definitely_not_none(val):
+                    return False
+    return calls > 0
+
+
 def scan_cache_sites():
     trees = {rel: ast.parse(p.read_text()) for rel, p in _py_files()}
     caches = discover_caches(trees)
@@ -282,7 +341,7 @@ def scan_cache_sites():
         observable = (f.cls in expr_classes) or (f.node.name in called_from_expr_methods and f.cls is None)
         if r.get("operand_cache"):
             rows.append({"cache": r["cache"]["display"], "func": func, "reads": r["rd"], "writes": r["wr"],
-                         "guarded": True if r["rd"] else False, "asserts": False, "observable": observable,
+                         "guarded": True if r["rd"] else False, "asserts": False, "observable": observable, "unreachable": False,
                          "key": "(per expression)", "uncovered": [], "guard": "miss-branch" if r["rd"] and r["wr"] else ("passes-on" if r["rd"] else "-")})
             continue
         cache = r["cache"]
@@ -290,6 +349,7 @@ def scan_cache_sites():
         guard = "-"
         guarded = True
         asserted = False
+        all_unreachable = True
         for n in r["reads"]:
             k = _src(n.slice)
             if k in r["tests"] and k in r["writes"]:
@@ -312,6 +372,11 @@ def scan_cache_sites():
                 g = "filled-by-callee" if early else "bare"
             if g in ("assert", "bare"):
                 guarded = False
+                op_guard = _operand_guard(f, n)
+                if not (op_guard and f.cls and _always_constructed_with(trees, f.cls, op_guard)):
+                    all_unreachable = False
+                else:
+                    g += f"(unreachable: every constructor call passes `{op_guard}`)"
             guard = g if guard in ("-", g) else guard + "+" + g
         if r["gets"]:
             guard = (guard + "+" if guard != "-" else "") + ".get"
@@ -341,6 +406,7 @@ def scan_cache_sites():
             uncovered = sorted(val_inputs - key_inputs - owner_inputs - {"cls"})
         rows.append({"cache": cache["display"], "func": func, "reads": bool(r["reads"] or r["gets"]), "writes": bool(r["writes"]),
                      "guarded": guarded if (r["reads"] or r["gets"]) else True, "asserts": asserted, "observable": observable,
+                     "unreachable": bool(r["reads"]) and not guarded and all_unreachable,
                      "key": " | ".join(keys), "uncovered": uncovered, "guard": guard})
     rows.sort(key=lambda x: (x["cache"], x["func"]))
     return rows
@@ -363,7 +429,7 @@ def gen_cache_sites():
         ents.append(
             f"  -- guard: {r['guard']}\n"
             f"  {{ cache := {lean_str(r['cache'])}, func := {lean_str(r['func'])}, reads := {lean_bool(r['reads'])}, writes := {lean_bool(r['writes'])},\n"
-            f"    guarded := {lean_bool(r['guarded'])}, asserts := {lean_bool(r['asserts'])}, observable := {lean_bool(r['observable'])},\n"
+            f"    guarded := {lean_bool(r['guarded'])}, asserts := {lean_bool(r['asserts'])}, unreachable := {lean_bool(r['unreachable'])}, observable := {lean_bool(r['observable'])},\n"
             f"    key := {lean_str(r['key'])}, uncovered := [{', '.join(lean_str(u) for u in r['uncovered'])}] }}"
         )
     lines.append(",\n".join(ents))
@@ -541,7 +607,15 @@ def name_rule_rows(probe=True):
         elif a["prefix_kind"] == "operation":
             static, fname = _operation_static(c)
             if static:
-                pfx, const = (fname if fname is not None else funcname(c).lower()), True
+                # the prefix of a class with a static `operation` does not depend on operands: ask the providing `_name`
+                # itself (on an operand-less raw object) rather than re-implementing its rule
+                try:
+                    raw = object.__new__(c)
+                    raw.operands = []
+                    n0 = _eval_name(c, raw)
+                    pfx, const = n0[:-33], True
+                except Exception:  # noqa: BLE001
+                    pfx, const = (fname if fname is not None else funcname(c).lower()), True
         elif a["prefix_kind"] == "const":
             pfx, const = a["prefix_const"], True
         nparams = len(c._parameters)
